@@ -44,12 +44,15 @@ def ts0(epoch_ms):
     return b"[%04d/%02d/%02d %02d:%02d:%02d.%03d]" % (y, m, d, h, mi, s, epoch_ms % 1000)
 
 
-def ts_iso_off(epoch_ms, off_min):
-    """`YYYY-MM-DD hh:mm:ss.mmm +hhmm` rendered in the given offset (same instant)."""
+def ts_iso_off(epoch_ms, off_min, us=None):
+    """`YYYY-MM-DD hh:mm:ss.mmm +hhmm` rendered in the given offset (same instant);
+    with `us` (microseconds within the second) a 6-digit fraction is written instead."""
     loc = epoch_ms // 1000 + off_min * 60
     y, m, d, h, mi, s = civil(loc)
     sign = b"+" if off_min >= 0 else b"-"
     a = abs(off_min)
+    if us is not None:
+        return b"%04d-%02d-%02d %02d:%02d:%02d.%06d %s%02d%02d" % (y, m, d, h, mi, s, us, sign, a // 60, a % 60)
     return b"%04d-%02d-%02d %02d:%02d:%02d.%03d %s%02d%02d" % (y, m, d, h, mi, s, epoch_ms % 1000, sign, a // 60, a % 60)
 
 
